@@ -299,6 +299,10 @@ qb_ipcs_response_send(struct qb_ipcs_connection *c, const void *data,
 	} else if (size > c->response.max_msg_size) {
 		return -EMSGSIZE;
 	}
+	if (c->state == QB_IPCS_CONNECTION_INACTIVE) {
+		/* never set up, or torn down again before it was established */
+		return -ENOTCONN;
+	}
 	qb_ipcs_connection_ref(c);
 	res = c->service->funcs.send(&c->response, data, size);
 	if (res == size) {
@@ -340,6 +344,10 @@ qb_ipcs_response_sendv(struct qb_ipcs_connection * c, const struct iovec * iov,
 		return -EINVAL;
 	} else if (_iov_total_size(iov, iov_len) > c->response.max_msg_size) {
 		return -EMSGSIZE;
+	}
+	if (c->state == QB_IPCS_CONNECTION_INACTIVE) {
+		/* never set up, or torn down again before it was established */
+		return -ENOTCONN;
 	}
 	qb_ipcs_connection_ref(c);
 	res = c->service->funcs.sendv(&c->response, iov, iov_len);
@@ -424,6 +432,10 @@ qb_ipcs_event_send(struct qb_ipcs_connection * c, const void *data, size_t size)
 		return -EMSGSIZE;
 	}
 
+	if (c->state == QB_IPCS_CONNECTION_INACTIVE) {
+		/* never set up, or torn down again before it was established */
+		return -ENOTCONN;
+	}
 	qb_ipcs_connection_ref(c);
 	res = c->service->funcs.send(&c->event, data, size);
 	if (res == size) {
@@ -466,6 +478,10 @@ qb_ipcs_event_sendv(struct qb_ipcs_connection * c,
 		return -EINVAL;
 	} else if (_iov_total_size(iov, iov_len) > c->event.max_msg_size) {
 		return -EMSGSIZE;
+	}
+	if (c->state == QB_IPCS_CONNECTION_INACTIVE) {
+		/* never set up, or torn down again before it was established */
+		return -ENOTCONN;
 	}
 	qb_ipcs_connection_ref(c);
 
